@@ -21,6 +21,12 @@ ALL_SIMS = (
 )
 
 
+import os
+
+# VERIF_BOUNDS=deep widens every bound by one (modes, cutoff, photons): slower, for exploratory soaks only
+DEEP = 1 if os.environ.get("VERIF_BOUNDS") == "deep" else 0
+
+
 def _r(x):
     return round(x, 4)
 
@@ -206,12 +212,12 @@ def _occupation(rng, d, total_max, fermionic=False):
 
 
 def gen_purefock(rng, opts):
-    d = opts.get("d") or rng.randrange(1, 5)
-    cutoff = opts.get("cutoff") or rng.randrange(2, 6)
+    d = opts.get("d") or rng.randrange(1, 5 + DEEP)
+    cutoff = opts.get("cutoff") or rng.randrange(2, 6 + DEEP)
     g = G(rng, "PureFockSimulator", opts)
     g.active = list(range(d))
     style = rng.weighted([("number", 5), ("superposition", 3), ("vacuum", 2)])
-    nmax = min(cutoff - 1, 3)
+    nmax = min(cutoff - 1, 3 + DEEP)
     if style == "number" or nmax < 1:
         g.add({"type": "NumberState", "modes": None, "params": {"occupation_numbers": _occupation(rng, d, nmax)}})
     elif style == "superposition":
@@ -360,7 +366,7 @@ def _gaussian_gate(g):
 
 
 def gen_gaussian(rng, opts):
-    d = opts.get("d") or rng.randrange(1, 4)
+    d = opts.get("d") or rng.randrange(1, 4 + DEEP)
     g = G(rng, "GaussianSimulator", opts)
     g.active = list(range(d))
     cfg = {}
@@ -422,10 +428,10 @@ def _add_dyne(g, kind, modes):
 
 
 def gen_passive(rng, opts):
-    d = opts.get("d") or rng.randrange(1, 5)
+    d = opts.get("d") or rng.randrange(1, 5 + DEEP)
     g = G(rng, "PassiveSimulator", opts)
     g.active = list(range(d))
-    nmax = opts.get("nmax", 3)
+    nmax = opts.get("nmax", 3 + DEEP)
     occ = _occupation(rng, d, nmax)
     if sum(occ) == 0 and rng.chance(0.8):
         occ[rng.randrange(d)] = 1
@@ -479,7 +485,7 @@ def gen_passive(rng, opts):
 
 
 def gen_fermionic_fock(rng, opts):
-    d = opts.get("d") or rng.randrange(2, 5)
+    d = opts.get("d") or rng.randrange(2, 5 + DEEP)
     g = G(rng, "FermionicPureFockSimulator", opts)
     g.active = list(range(d))
     cutoff = d + 1
